@@ -418,7 +418,14 @@ func (w *c27World) killEnd(k *c27Kill) (n int) {
 				continue // used (updateUsedTime) while the Gc was running: may have been spared
 			}
 			if p.dead {
-				continue // keep the record of the first death
+				// keep the record of the first death, but remember that a later
+				// deleting operation also covered the path: overlapping deletions
+				// may leave the store write to the later one, and a crash that
+				// loses that write brings the path back legitimately
+				if nw := w.store.nWrites(); nw > p.deadW {
+					p.deadW = nw
+				}
+				continue
 			}
 			if p.saved {
 				n++
